@@ -260,6 +260,51 @@ CutSets(n, maxFull, maxCuts) ==
   IF n <= maxFull THEN SUBSET (1..(n - 1))
   ELSE UNION {KSubsets(1..(n - 1), k) : k \in 0..maxCuts}
 
+\* ---- transition cover.  What a decoder carries over a chunk boundary depends on the machine state there and on the
+\* bytes next to the cut; an implementation may key its own flags on either ("previous chunk ended in CR", "chunk starts
+\* with LF") and keep them over SEVERAL chunks.  The class of a cut is therefore <<CutKind, byte before, byte after>>
+\* (bytes as cr / lf / x), and a cover of depth d contains, besides the unsplit stream and (d >= 1) every single cut, for every
+\* ordered pair (d >= 2) and triple (d >= 3) of classes realised by cuts c1 < c2 (< c3) of the stream a representative
+\* chunking or two (a widest and a tight one).
+Byte3(b) == IF b = CR THEN "cr" ELSE IF b = LF THEN "lf" ELSE "x"
+CutClass(mode, bytes, c) == <<CutKind(mode, bytes, c), Byte3(bytes[c]), Byte3(bytes[c + 1])>>
+CutClasses(mode, bytes) == Mat([c \in 1..(Len(bytes) - 1) |-> CutClass(mode, bytes, c)])
+
+\* TLC evaluates a function constructor lazily at every application; comparing it forces (and caches) the table
+Forced(f) == IF f = f THEN f ELSE f
+MinOf(S) == CHOOSE x \in S : \A y \in S : x <= y
+MaxOf(S) == CHOOSE x \in S : \A y \in S : x >= y
+
+\* ordered class pair (a, b) realised by c1 < c2: the widest representative and a tight one
+CoverPairs(Cls, pos, fst, lst) ==
+  UNION {LET ia == MaxOf({i \in pos[cl[1]] : i < lst[cl[2]]}) IN
+         {{fst[cl[1]], lst[cl[2]]}, {ia, MinOf({j \in pos[cl[2]] : j > ia})}}
+         : cl \in {x \in Cls \X Cls : fst[x[1]] < lst[x[2]]}}
+\* ordered class triple (a, b, c) realised by c1 < c2 < c3: widest and tightest around the first middle cut
+CoverTriples(Cls, pos, fst, lst) ==
+  UNION {LET j == MinOf({m \in pos[cl[2]] : fst[cl[1]] < m /\ m < lst[cl[3]]}) IN
+         {{fst[cl[1]], j, lst[cl[3]]},
+          {MaxOf({i \in pos[cl[1]] : i < j}), j, MinOf({k \in pos[cl[3]] : k > j})}}
+         : cl \in {x \in Cls \X Cls \X Cls : \E m \in pos[x[2]] : fst[x[1]] < m /\ m < lst[x[3]]}}
+PosOf(K, Cls) == Forced([a \in Cls |-> {c \in 1..Len(K) : K[c] = a}])
+FirstOf(pos, Cls) == Forced([a \in Cls |-> MinOf(pos[a])])
+LastOfCls(pos, Cls) == Forced([a \in Cls |-> MaxOf(pos[a])])
+CoverOfClasses(K, Cls, pos, depth) ==
+  {{}}
+  \cup (IF depth >= 1 THEN {{c} : c \in 1..Len(K)} ELSE {})
+  \cup (IF depth >= 2 THEN CoverPairs(Cls, pos, FirstOf(pos, Cls), LastOfCls(pos, Cls)) ELSE {})
+  \cup (IF depth >= 3 THEN CoverTriples(Cls, pos, FirstOf(pos, Cls), LastOfCls(pos, Cls)) ELSE {})
+ClassSet(K) == {K[c] : c \in 1..Len(K)}
+CoverOfK(K, depth) == CoverOfClasses(K, ClassSet(K), PosOf(K, ClassSet(K)), depth)
+CoverSets(mode, bytes, depth) == CoverOfK(CutClasses(mode, bytes), depth)
+
+\* the chunkings of a family stream s = [mode, bytes, rule]
+CutsFor(s, maxFull, maxCuts, depth) ==
+  IF s.rule = "cover" THEN CoverSets(s.mode, s.bytes, depth) ELSE CutSets(Len(s.bytes), maxFull, maxCuts)
+
+\* a bare CR (not followed by LF) terminates a line somewhere in the stream
+HasBareCR(bytes) == \E i \in 1..Len(bytes) : bytes[i] = CR /\ (i = Len(bytes) \/ bytes[i + 1] # LF)
+
 \* sorted sequence of a set of ints
 RECURSIVE SortedSeq(_)
 SortedSeq(S) == IF S = {} THEN <<>>
